@@ -167,10 +167,19 @@ class RunRoles:
         """every reaching definition of the Name `expr` is the result of one of `calls`"""
         if not isinstance(expr, ast.Name):
             return any(expr is c for c in calls)
-        defs = self.rd.at(node, expr.id)
-        if not defs:
-            return False
-        return all(isinstance(d.value, ast.AST) and any(d.value is c for c in calls) for d in defs)
+        def rec(n, name, depth):
+            defs = self.rd.at(n, name)
+            if not defs or depth > 3:
+                return False
+            for d in defs:
+                v = d.value
+                if isinstance(v, ast.AST) and any(v is c for c in calls):
+                    continue
+                if isinstance(v, ast.Name) and rec(d.node, v.id, depth + 1):
+                    continue        # a plain copy (e.g. the result variable of an expanded helper)
+                return False
+            return True
+        return rec(node, expr.id, 0)
 
     def in_loop(self, n):
         return id(n) in self.loop_ids
